@@ -25,6 +25,9 @@ CLAIMS['C07'] = dict(cat='proof', ref='DESIGN.md 5/C07',
 CLAIMS['C08'] = dict(cat='proof', ref='DESIGN.md 5/C08',
    text='Q-vector kernel proved equal to (2pi/lambda)(e_i-e_f) in the inverse wavelength unit for all beams/units; |Q| = scalar Q, length independence and rotation covariance are lemmas; UB = U.B entry-wise; hkl: the code inverts exactly R.UB and, by certificate identities for Cramer\'s rule, 2pi R UB hkl = Q whenever det(R UB) != 0; split/merge lossless; DimensionError iff sizes differ. Rounding of the inversion is only checked boundedly (random SO(3), cond(B) <= 1e6).',
    note='Trusted: scipp model (matrix algebra, inv as Cramer), certificate inference rule, SMT solvers. Numerical stability for ill-conditioned B: bounded stand-in, not proved.')
+CLAIMS['C18'] = dict(cat='proof', ref='DESIGN.md 5/C18',
+   text='Contracts on the three interval helpers, Cylinder.beam_intersection (against the callee contracts), center, volume and quadrature, executed symbolically from the working tree: line/infinite-cylinder and line/slab intersections characterise exactly the parameters t whose point lies inside (ghost lemmas: quadratic form, discriminant, roots), incl. parallel and tangent rays with infinite interval ends; path length = length of the ray inside both; quadrature: rotation about z x a with sin = |z x a| and cos = z.a for EVERY unit axis, which maps z to the axis (Rodrigues lemma), so all points lie inside the solid with positive weights summing to the volume (table facts enumerated completely on the real data); transmission bounds/monotonicity by an induction lemma. Bounded stand-ins on the real code for geometry and the transmission map.',
+   note='Trusted: scipp model (where/inf handling, Rodrigues contract of rotations_from_rotvecs), instantiated trig/exp facts, instantiation rule, numpy Gauss rules (facts re-checked on produced values), the numpy matvec as weighted sum. Not decided: invariance up to quadrature accuracy (bounded only).')
 NA = {}
 checks = []
 for p in props:
